@@ -40,7 +40,8 @@ type corrCombo struct {
 	Series  bool   `json:"series"`
 	Date    bool   `json:"date"`
 	CopyTax bool   `json:"copytax"`
-	State   string `json:"state"` // signed-stamped | signed | draft | nocode
+	State   string `json:"state"`   // signed-stamped | signed | draft | nocode
+	Partial string `json:"partial"` // "" | first | rest: which of the required stamps are offered at all
 }
 
 type corrDef struct {
@@ -313,6 +314,34 @@ func corrSources(repo string, max int) []corrSource {
 			break
 		}
 	}
+	// regime and addon together: a regime that asks for a stamp with an addon that asks for another one
+	var two []corrSource
+	seenReg := map[string]bool{}
+	for _, s := range out {
+		inv := s.env.Extract().(*bill.Invoice)
+		r := inv.RegimeDef()
+		if r == nil || seenReg[string(r.Country)] || len(inv.Preceding) > 0 {
+			continue
+		}
+		if cd := r.Corrections.Def(bill.ShortSchemaInvoice); cd == nil || len(cd.Stamps) == 0 {
+			continue
+		}
+		data, _ := json.Marshal(s.env)
+		e2 := new(gobl.Envelope)
+		if json.Unmarshal(data, e2) != nil {
+			continue
+		}
+		e2.Signatures = nil
+		e2.Head.Stamps = nil
+		i2 := e2.Extract().(*bill.Invoice)
+		i2.SetAddons(append(append([]cbc.Key{}, i2.GetAddons()...), "co-dian-v2")...)
+		if e2.Calculate() != nil || e2.Validate() != nil {
+			continue
+		}
+		seenReg[string(r.Country)] = true
+		two = append(two, corrSource{s.name + "#with-co-dian-v2", e2})
+	}
+	chained = append(chained, two...)
 	if max > 0 && len(out) > max {
 		// spread over regimes: take every n-th
 		step := len(out) / max
@@ -385,9 +414,20 @@ func corrRun(repo, combosFile string, maxSrc int, bulkBin, goblBin string, cliEv
 				merged.Stamps = append(merged.Stamps, d.Stamps...)
 				merged.Extensions = append(merged.Extensions, d.Extensions...)
 			}
+			offered := merged.Stamps
+			if c.Partial != "" {
+				if len(merged.Stamps) < 2 {
+					continue
+				}
+				if c.Partial == "first" {
+					offered = merged.Stamps[:1]
+				} else {
+					offered = merged.Stamps[1:]
+				}
+			}
 			if c.State == "signed-stamped" {
 				// the stamps a correction may later require are present in the source header
-				for _, p := range merged.Stamps {
+				for _, p := range offered {
 					// values a cleaning step would alter (surrounding and doubled white space): the source must keep them
 					env.Head.AddStamp(&head.Stamp{Provider: cbc.Key(p), Value: "  stamp  " + p + " "})
 				}
@@ -427,7 +467,7 @@ func corrRun(repo, combosFile string, maxSrc int, bulkBin, goblBin string, cliEv
 			}
 			if c.Stamps {
 				var ss []*head.Stamp
-				for _, p := range merged.Stamps {
+				for _, p := range offered {
 					val := " opt  " + p + " "
 					if c.Series && !c.Date {
 						val = "" // a stamp without a value is not the stamp the regime asks for
